@@ -146,6 +146,11 @@ let () =
        | _ -> "?")
     | _ -> "?")
 
+let () =
+  (* oracle-only engines: case brackets carry no model content *)
+  reg "mbegin" (fun _ _ -> "ok");
+  reg "mend" (fun _ _ -> "ok")
+
 (* further engines register their handlers from other compilation units via [reg] *)
 let process_line (line : string) : string option =
   if String.length line = 0 then None
